@@ -1,33 +1,60 @@
 (* C16 - Readers and writers treat paths, gzip paths and open streams alike.
    Statements only; proofs in Io/Proofs.v.  The theorem is about the helper's decision table and
-   what each decision does to the content, for ANY text/bytes types and ANY codecs satisfying the
-   two round-trip laws (hypotheses, not axioms).  Which Python object falls into which kind, and the
+   what each decision does to the content - which encoding and which newline mode the text layer
+   uses - for ANY bytes type and ANY codecs satisfying the two round-trip laws (hypotheses, not axioms).  Which Python object falls into which kind, and the
    codecs themselves (UTF-8, gzip), are runtime behaviour: the correspondence executes the full
    product of source kinds and readers / writers. *)
-From Coq Require Import String List Bool Arith.
+From Coq Require Import String Ascii List Bool Arith.
 From Hpotk Require Import Base.Result Base.Str Io.Model Io.Proofs.
 Import ListNotations.
 Open Scope string_scope.
 
-(* every reader built on the helper sees the same text c whichever kind of source carries it; any
-   other kind of argument is rejected with ValueError *)
-Theorem C16_read_uniform : forall (text bytes : Type) (encode : text -> bytes) (decode : bytes -> text) (gzip gunzip : bytes -> bytes),
-  (forall c, decode (encode c) = c) -> (forall b, gunzip (gzip b) = b) ->
-  forall (a : arg) (c : text),
+(* every reader built on the helper sees the same text of the content c whichever kind of source
+   carries it - stored in the requested encoding behind a name (plain or gzip, local or URL) or a binary
+   stream: the content with its line endings translated (seen a c = universal c); a caller's own text
+   stream yields its text as it is (seen a c = c).  Nothing is assumed of the locale's codec: no handle
+   the helper creates uses it.  Any other kind of argument is rejected with ValueError *)
+Theorem C16_read_uniform : forall (bytes : Type) (encode : encsel -> string -> bytes) (decode : encsel -> bytes -> string) (gzip gunzip : bytes -> bytes),
+  (forall c, decode EncParam (encode EncParam c) = c) -> (forall b, gunzip (gzip b) = b) ->
+  forall (a : arg) (c : string),
   match open_for_reading a with
-  | Ok p => a <> AOther /\ read_text text bytes decode gunzip p (materialise text bytes encode gzip a c) = Some c
+  | Ok p => a <> AOther /\ read_text bytes decode gunzip p (materialise bytes encode gzip a c) = Some (seen a c)
   | Err e => a = AOther /\ e = ValueError
   end.
 Proof. exact read_uniform. Qed.
 
+(* ... in particular the same content with LF, CR LF or CR line endings is seen as the same text
+   through every handle the helper opens, a text stream opened the default way on the same file yields
+   that very text, and no reader ever sees a carriage return *)
+Theorem C16_line_endings : forall (s : string), has_cr s = false ->
+  universal s = s /\ universal (with_ending (String crc (String lf "")) s) = s /\ universal (with_ending (String crc "") s) = s.
+Proof. exact (fun s H => conj (universal_id s H) (conj (universal_crlf s H) (universal_cr_only s H))). Qed.
+Theorem C16_no_carriage_return : forall (s : string), has_cr (universal s) = false /\ universal (universal s) = universal s.
+Proof. exact (fun s => conj (universal_no_cr s) (universal_idem s)). Qed.
+Theorem C16_read_uniform_all_kinds : forall (bytes : Type) (encode : encsel -> string -> bytes) (decode : encsel -> bytes -> string) (gzip gunzip : bytes -> bytes),
+  (forall c, decode EncParam (encode EncParam c) = c) -> (forall b, gunzip (gzip b) = b) ->
+  forall (a : arg) (c : string) (p : rplan), open_for_reading a = Ok p ->
+  read_text bytes decode gunzip p (materialise bytes encode gzip a (match a with ATextStream => universal c | _ => c end)) = Some (universal c).
+Proof. exact read_uniform_all_kinds. Qed.
+
+(* the text layers the helper creates: requested encoding and universal newlines for every reader,
+   requested encoding - never the locale's - for every writer *)
+Theorem C16_layers : forall (a : arg),
+  (forall p l, open_for_reading a = Ok p -> rplan_layer p = Some l -> l = {| l_enc := EncParam; l_nl := NlUniversal |}) /\
+  (forall p l, open_for_writing a = Ok p -> wplan_layer p = Some l -> l_enc l = EncParam).
+Proof. exact (fun a => conj (read_layer a) (write_layer_enc a)). Qed.
+
 (* every writer leaves in a target of each kind exactly the material that kind of source carries for
-   c - and a reader of the same kind reads c back *)
-Theorem C16_write_uniform : forall (text bytes : Type) (encode : text -> bytes) (decode : bytes -> text) (gzip gunzip : bytes -> bytes),
-  (forall c, decode (encode c) = c) -> (forall b, gunzip (gzip b) = b) ->
-  forall (a : arg) (c : text),
+   c - and a reader of the same kind reads c back.  Stated for a platform whose os.linesep is LF (the
+   third argument of `written`): the plain-path writer uses universal-newline output and the .gz-path
+   writer newline='', which differ where os.linesep is CR LF (Io.Proofs.write_newline_platform_caveat;
+   not executable in this sandbox) *)
+Theorem C16_write_uniform : forall (bytes : Type) (encode : encsel -> string -> bytes) (decode : encsel -> bytes -> string) (gzip gunzip : bytes -> bytes),
+  (forall c, decode EncParam (encode EncParam c) = c) -> (forall b, gunzip (gzip b) = b) ->
+  forall (a : arg) (c : string),
   match open_for_writing a, open_for_reading a with
-  | Ok w, Ok r => a <> AOther /\ written text bytes encode gzip w c = materialise text bytes encode gzip a c /\
-                  read_text text bytes decode gunzip r (written text bytes encode gzip w c) = Some c
+  | Ok w, Ok r => a <> AOther /\ written bytes encode gzip (String lf "") w c = materialise bytes encode gzip a c /\
+                  read_text bytes decode gunzip r (written bytes encode gzip (String lf "") w c) = Some (seen a c)
   | Err e, Err e' => a = AOther /\ e = ValueError /\ e' = ValueError
   | _, _ => False
   end.
@@ -41,5 +68,8 @@ Proof. exact (fun f => conj (looks_gzipped_spec f) (looks_like_url_spec f)). Qed
 
 Example C16_example :
   looks_gzipped "hp.json.gz" = true /\ looks_gzipped "hp.gz.json" = false /\ looks_gzipped ".gz" = true /\ looks_gzipped "gz" = false /\
-  open_for_reading (AStr "a/b.hpoa.gz") = Ok (ROpen false true) /\ open_for_writing (AStr "x.csv") = Ok (WOpen false).
+  open_for_reading (AStr "a/b.hpoa.gz") = Ok (ROpen false true {| l_enc := EncParam; l_nl := NlUniversal |}) /\
+  open_for_writing (AStr "x.csv") = Ok (WOpen false {| l_enc := EncParam; l_nl := NlUniversal |}) /\
+  universal (String "a"%char (String crc (String lf (String "b"%char (String crc (String "c"%char (String lf "")))))))
+  = String "a" (String lf (String "b" (String lf (String "c" (String lf ""))))).
 Proof. vm_compute. repeat split; reflexivity. Qed.
